@@ -38,14 +38,24 @@ var (
 	c01Data   = [][]byte{nil, {1}, nil, {0, 255}, nil}
 )
 
-func c01Body(edge bool, maxN int) mc.Body {
+// samePayload: three points of ONE identity of which two or all three carry the same value, text, data,
+// tombstone and origin and differ in nothing but the time ("the same reading sent again later").
+func c01Body(edge bool, maxN int, samePayload ...bool) mc.Body {
+	same := len(samePayload) > 0 && samePayload[0]
 	return func(x *mc.X) mc.Outcome {
 		n := 1 + x.Choose(maxN, "npoints")
+		if same {
+			n = 3
+		}
 		pts := make([]data.Point, n)
 		// 4 timestamp assignments: small / int64 extremes, increasing or decreasing with the point index
 		// (the other fields are tied to the index, so both "newer point has the larger tombstone/value" and the opposite occur)
 		tv := 0
-		if n >= 4 {
+		pattern := -1
+		if same {
+			tv = []int{0, 2}[x.Choose(2, "ts-variant")]
+			pattern = x.Choose(4, "which points share their payload")
+		} else if n >= 4 {
 			// thorough, 4 points: the two assignments that differ most (extremes rising, small falling)
 			tv = []int{1, 2}[x.Choose(2, "ts-variant")]
 		} else {
@@ -56,12 +66,21 @@ func c01Body(edge bool, maxN int) mc.Body {
 			tsv = c01TsB
 		}
 		for i := 0; i < n; i++ {
-			id := c01Idents[x.Choose(len(c01Idents), "ident")]
+			var id c01Ident
+			if same {
+				id = c01Idents[0]
+			} else {
+				id = c01Idents[x.Choose(len(c01Idents), "ident")]
+			}
 			ts := tsv[i]
 			if tv >= 2 {
 				ts = tsv[n-1-i]
 			}
-			pts[i] = data.Point{Type: id.typ, Key: id.key, Time: time.Unix(0, ts), Value: c01Vals[i], Text: c01Texts[i], Tombstone: c01Tombs[i], Origin: c01Origin[i], Data: c01Data[i]}
+			j := i // index whose payload point i carries
+			if same {
+				j = [][]int{{1, 2, 1}, {1, 1, 2}, {2, 1, 1}, {1, 1, 1}}[pattern][i]
+			}
+			pts[i] = data.Point{Type: id.typ, Key: id.key, Time: time.Unix(0, ts), Value: c01Vals[j], Text: c01Texts[j], Tombstone: c01Tombs[j], Origin: c01Origin[j], Data: c01Data[j]}
 		}
 		// permutation (Lehmer code)
 		rest := make([]int, n)
@@ -250,6 +269,9 @@ func checkC01(r *mc.Report, thorough bool) {
 	rule := fmt.Sprintf("all point lists of 1..%d points over 6 identities (incl. (a,\"\")/(a,\"0\") and the (ab,\"\")/(a,b)/(a0,\"\") concatenation collisions), 4 timestamp assignments (small / int64 extremes, rising / falling against the other fields), x all permutations x all compositions into batches x one re-delivery of any batch at any later position; read-back checked after every delivery", n)
 	r.Explore(mc.Config{Name: fmt.Sprintf("node-points-n%d", n), Rule: rule, SelfCheckEvery: 5000}, c01Body(false, n))
 	r.Explore(mc.Config{Name: fmt.Sprintf("edge-points-n%d", n), Rule: rule, SelfCheckEvery: 5000}, c01Body(true, n))
+	sameRule := "three points of one identity of which two (any two) or all three carry the same value, text, data, tombstone and origin and differ only in their time; timestamps rising / falling with the index; all permutations x all compositions into batches x one re-delivery; read-back (time included) checked after every delivery"
+	r.Explore(mc.Config{Name: "node-points-same-payload", Rule: sameRule}, c01Body(false, 3, true))
+	r.Explore(mc.Config{Name: "edge-points-same-payload", Rule: sameRule}, c01Body(true, 3, true))
 	sh.CleanupTemplate()
 	r.Assume("bus = deterministic in-process stand-in for nats.go (inline mode), conformance-checked against the real client+server by /verif/realnats")
 	r.Assume("timestamps distinct per identity, non-zero; values not NaN")
@@ -261,4 +283,6 @@ func init() {
 		bodies[fmt.Sprintf("C01/node-points-n%d", n)] = c01Body(false, n)
 		bodies[fmt.Sprintf("C01/edge-points-n%d", n)] = c01Body(true, n)
 	}
+	bodies["C01/node-points-same-payload"] = c01Body(false, 3, true)
+	bodies["C01/edge-points-same-payload"] = c01Body(true, 3, true)
 }
